@@ -33,6 +33,14 @@ impl Drop for ImplGuard {
 
 thread_local! {
     static RT_SOURCE: RefCell<Option<String>> = const { RefCell::new(None) };
+    /// the last `End::Fuel` of this thread came from the statement budget (true) or from the call-depth limit (false)
+    static BUDGET_END: std::cell::Cell<bool> = const { std::cell::Cell::new(false) };
+}
+
+/// whether the last run of this thread that ended with `End::Fuel` ran out of its statement budget (as opposed to
+/// the call-depth limit)
+pub fn last_fuel_was_statement_budget() -> bool {
+    BUDGET_END.with(|b| b.get())
 }
 
 pub fn install_panic_hook() {
@@ -299,7 +307,13 @@ pub fn parse_record(src: &str) -> String {
     let r = catch_unwind(AssertUnwindSafe(|| {
         let lexed = match ApLang::new_from_stdin(src.to_string()).lex() {
             Ok(l) => l,
-            Err(reports) => return format!("lexerr {}", reports.len()),
+            Err(reports) => {
+                let n = reports.len();
+                // the tool renders the diagnostics as one bundle
+                let bundle = Report::from(aplang_lib::interpreter::errors::Reports::from(reports));
+                let _ = format!("{:?}", bundle);
+                return format!("lexerr {}", n);
+            }
         };
         match lexed.parse() {
             Ok(parsed) => {
@@ -311,7 +325,11 @@ pub fn parse_record(src: &str) -> String {
                     let _ = format!("{:?}", r);
                 }
                 let es: Vec<String> = reports.iter().map(|r| labels_str(&report_labels(r))).collect();
-                format!("errs {} {}", reports.len(), es.join("|"))
+                let rec = format!("errs {} {}", reports.len(), es.join("|"));
+                // the tool renders the diagnostics as one bundle
+                let bundle = Report::from(aplang_lib::interpreter::errors::Reports::from(reports));
+                let _ = format!("{:?}", bundle);
+                rec
             }
         }
     }));
@@ -418,6 +436,7 @@ pub fn run_impl(src: &str, file_path: &str, fuel: u64, max_depth: u32) -> RunRec
             Ok(()) => (End::Ok, out, vec![]),
             Err(e) => {
                 if e.message == aplang_lib::verif::FUEL_MESSAGE || e.message == aplang_lib::verif::DEPTH_MESSAGE {
+                    BUDGET_END.with(|b| b.set(e.message == aplang_lib::verif::FUEL_MESSAGE));
                     (End::Fuel, out, vec![])
                 } else {
                     let span = (e.span.offset(), e.span.len());
